@@ -815,7 +815,11 @@ class Valet(object):
                 if requestant.persisted:
                     if requestant.parser is None:  # reuse
                         requestant.makeParser()  # resets requestant parser
-                else:  # not persistent so close and remove requestant and responder
+                elif requestant.parser is None:  # not persistent and request completely parsed
+                    # so close and remove requestant and responder.
+                    # While .parser is not None the responder that ended is the one of
+                    # the PREVIOUS request: the head of the next request has already set
+                    # .persisted but its body is still arriving and it is not answered yet
                     ix = self.servant.ixes[ca]
                     if not ix.txes:  # wait for outgoing txes to be empty
                         self.closeConnection(ca)
